@@ -118,13 +118,25 @@ pub(super) async fn udp_forward_on(
     debug!("bound to {local_addr}");
     socket.send_to(&data, target).await?;
     trace!("sent UDP packet to {target}");
+    // One flow may talk to targets of both address families (all datagrams of a SOCKS5
+    // association share a flow ID): the socket of the other family is bound on demand.
+    let mut other_socket: Option<UdpSocket> = None;
     loop {
         // Reset this timeout each time we see traffic
         let this_round_timeout = tokio::time::sleep(config::UDP_PRUNE_TIMEOUT);
         let mut buf = vec![0; config::MAX_UDP_PACKET_SIZE];
+        let mut other_buf = vec![0; config::MAX_UDP_PACKET_SIZE];
         tokio::select! {
-            // Check if the socket has received a datagram
-            Ok((len, addr)) = socket.recv_from(&mut buf) => {
+            // Check if one of the sockets has received a datagram
+            Ok((len, addr)) = async {
+                tokio::select! {
+                    r = socket.recv_from(&mut buf) => r,
+                    r = recv_from_optional(other_socket.as_ref(), &mut other_buf) => {
+                        core::mem::swap(&mut buf, &mut other_buf);
+                        r
+                    }
+                }
+            } => {
                 buf.truncate(len);
                 trace!("got UDP response from {addr}");
                 let frame = Datagram {
@@ -152,12 +164,20 @@ pub(super) async fn udp_forward_on(
                 // If this returns `None`, the mux loop has exited
                 // I don't want to handle this case here because
                 // the timeout branch will handle it for us anyway.
-                let target = (
-                    std::str::from_utf8(&datagram_frame.target_host)?,
-                    datagram_frame.target_port,
-                );
-                trace!("got new datagram frame: {datagram_frame:?} for {target:?}");
-                socket.send_to(&datagram_frame.data, target).await?;
+                trace!("got new datagram frame: {datagram_frame:?}");
+                // A datagram that cannot be sent (bad host, unreachable target) is lost;
+                // it must not take the flow, and the replies still due on it, down with it.
+                if let Err(e) = send_datagram_on_flow(
+                    &datagram_frame,
+                    &socket,
+                    &mut other_socket,
+                    outgoing_from_v4,
+                    outgoing_from_v6,
+                )
+                .await
+                {
+                    debug!("could not forward a UDP datagram: {e}");
+                }
             }
             // Check if the timeout has expired
             () = this_round_timeout => {
@@ -168,6 +188,59 @@ pub(super) async fn udp_forward_on(
     }
     debug!("UDP forwarding finished");
     Ok(())
+}
+
+/// `recv_from` on a socket that may not exist (yet): pending forever without one.
+#[inline]
+async fn recv_from_optional(
+    socket: Option<&UdpSocket>,
+    buf: &mut [u8],
+) -> io::Result<(usize, SocketAddr)> {
+    match socket {
+        Some(socket) => socket.recv_from(buf).await,
+        None => core::future::pending().await,
+    }
+}
+
+/// Send a later datagram of a flow from the flow's socket of the target's address family,
+/// binding that socket first if this is the first target of its family.
+#[inline]
+async fn send_datagram_on_flow(
+    datagram_frame: &Datagram,
+    socket: &UdpSocket,
+    other_socket: &mut Option<UdpSocket>,
+    outgoing_from_v4: Ipv4Addr,
+    outgoing_from_v6: Ipv6Addr,
+) -> Result<(), Error> {
+    let host = std::str::from_utf8(&datagram_frame.target_host)?;
+    let first_is_v4 = socket.local_addr()?.is_ipv4();
+    let mut last_err = None;
+    for target in lookup_host((host, datagram_frame.target_port)).await? {
+        let sender = if target.is_ipv4() == first_is_v4 {
+            socket
+        } else {
+            if other_socket.is_none() {
+                *other_socket = Some(if target.is_ipv4() {
+                    UdpSocket::bind((outgoing_from_v4, 0)).await?
+                } else {
+                    UdpSocket::bind((outgoing_from_v6, 0)).await?
+                });
+            }
+            other_socket.as_ref().expect("just bound (this is a bug)")
+        };
+        match sender.send_to(&datagram_frame.data, target).await {
+            Ok(_) => return Ok(()),
+            Err(e) => last_err = Some(e),
+        }
+    }
+    Err(last_err
+        .unwrap_or_else(|| {
+            io::Error::new(
+                io::ErrorKind::InvalidInput,
+                "could not resolve to any address",
+            )
+        })
+        .into())
 }
 
 /// Start a TCP forwarding server on the given listener.
